@@ -1025,3 +1025,14 @@ UNIT_META["shutdown_drain"] = {"functions": ["db::DbInner::kill_logs (fragment: 
 PROPS["C03"]["verus_units"] = list(PROPS["C03"].get("verus_units", [])) + ["shutdown_drain"]
 PROPS["C03"]["claim"] = PROPS["C03"]["claim"] + " Unbounded in the number of commits per stage (Verus, fragment of DbInner::kill_logs; stage functions by contract over a ghost view of the pipeline): when the drain sequence returns Ok no accepted commit is left queued, appended or readable -- all are applied to the tables -- and the log files are reclaimed only after that; every loop of the sequence terminates."
 PROPS["C03"]["technique"] = PROPS["C03"]["technique"] + "; Verus contract on the drain sequence of DbInner::kill_logs (fragment)"
+
+# ---------------------------------------------------------------- U67 (Kani: LogReader::next -- action parsing and the checksum gate)
+for (_n, _sh, _q) in (("u67_next_begin", "BEGIN_RECORD", True), ("u67_next_insert_index", "INSERT_INDEX", False), ("u67_next_insert_value", "INSERT_VALUE", True), ("u67_next_insert_ref_count", "INSERT_REF_COUNT", False),
+                      ("u67_next_end", "END_RECORD (validating)", True), ("u67_next_end_no_validation", "END_RECORD (not validating)", False), ("u67_next_drop_table", "DROP_TABLE", False),
+                      ("u67_next_drop_ref_count_table", "DROP_REF_COUNT_TABLE", False), ("u67_next_unknown", "an unknown action byte", True), ("u67_next_insert_value_no_validation", "INSERT_VALUE (not validating)", False)):
+    M_LOG.harnesses.append(H(_n, "U67", kind="proof", tiers=("quick", "thorough") if _q else ("thorough",), shape="LogReader::next on a stream starting with " + _sh + ", argument bytes and checksum arbitrary"))
+UNIT_META["U67"] = {"functions": ["log::LogReader::next"], "assumes": ["crc32fast::Hasher::{update, finalize} replaced by contracts (update must be handed exactly the bytes read, in order; finalize returns the checksum of what was fed): CRC-32 itself is trusted", "read(2) replaced by a contract over a scripted 16-byte stream (BufReader of capacity 0: every read goes to File::read); complete per action kind (the action byte is enumerated, everything else symbolic)"]}
+PROPS["C13"]["kani_units"] = list(PROPS["C13"]["kani_units"]) + ["U67"]
+PROPS["C13"]["claim"] = PROPS["C13"]["claim"] + " Checksum gate (Kani, complete per action kind; CRC-32 by contract): LogReader::next hands every byte of a record's actions to the hasher, in order and without gaps, accepts the END_RECORD marker exactly if the four bytes behind it are the hasher's result, rejects unknown action bytes, consumes exactly the bytes of the action and reads record id, table id and position from the bytes where the writer puts them."
+PROPS["C13"]["does_not_cover"] = [x.replace("CRC and record sequencing", "CRC-32 itself (crc32fast, trusted); that the payload bytes read through LogReader::read are hashed is part of U9's reader contract") for x in PROPS["C13"]["does_not_cover"]]
+PROPS["C12"]["does_not_cover"] = [x for x in PROPS["C12"]["does_not_cover"] if "flush_one when the sync fails" not in x]
